@@ -22,6 +22,7 @@ func runC10(c *Ctx) {
 	r10_4(c, "R10.4")
 	r10_5(c, "R10.5")
 	r10_6(c, "R10.7")
+	r10_8(c, "R10.8")
 	r04_8(c, "R10.6")
 }
 
@@ -180,6 +181,32 @@ func r10_1(c *Ctx, rule string) {
 	c.ObErrChecked(rule+"/checked", fw.excCall)
 }
 
+// R10.8: the caller's pattern lists keep their order.
+func r10_8(c *Ctx, rule string) {
+	c.R.Rule(rule, "NewFilterFS never sorts a list that contains the caller's include or exclude patterns (pattern lists are order-sensitive: a later pattern overrides an earlier one)")
+	nf := c.Fn(rule, "fsutil.NewFilterFS")
+	if nf == nil {
+		return
+	}
+	n := 0
+	for _, call := range eng.Calls(nf) {
+		name := c.P.CalleeName(call)
+		if !(strings.HasPrefix(name, "sort.") || strings.HasPrefix(name, "slices.Sort")) || len(call.Common().Args) == 0 {
+			continue
+		}
+		n++
+		arg := call.Common().Args[0]
+		tainted := c.DerivesFrom(arg, func(v ssa.Value) bool {
+			if _, isMk := v.(*ssa.MakeSlice); isMk {
+				return true // the copy of the caller's list
+			}
+			return isFieldLoad(v, "fsutil.FilterOpt.IncludePatterns") || isFieldLoad(v, "fsutil.FilterOpt.ExcludePatterns")
+		}, 8)
+		c.R.Check(!tainted, rule, c.siteName(call)+"/not-a-pattern-list", c.pos(call), "sorts link targets only", "NewFilterFS sorts a list holding the caller's patterns: '!' patterns move to the front and lose their effect on the patterns they were meant to override")
+	}
+	c.R.OK(rule, c.name(nf)+"/sort-census", c.P.Pos(nf.Pos()), fmt.Sprintf("%d sort call(s) in NewFilterFS, none over a pattern list", n))
+}
+
 // R10.7: how the two prefix-only flags are computed.
 func r10_6(c *Ctx, rule string) {
 	c.R.Rule(rule, "NewFilterFS: onlyPrefixIncludes can only be cleared by a non-exclusion include pattern and onlyPrefixExcludeExceptions only by an exclusion ('!') exclude pattern; each flag can be cleared")
@@ -274,17 +301,16 @@ func r10_2(c *Ctx, rule string) {
 		return
 	}
 	n := 0
-	for _, call := range c.P.CallsTo(fw.lit, "strings.HasPrefix") {
+	for _, pt := range c.prefixTests(fw.lit) {
 		n++
-		a := call.Common().Args
-		ok, why := sepTerminated(c, a[1], false, 0)
-		c.R.Check(ok, rule, c.siteName(call)+"/prefix-terminated", c.pos(call), "the prefix operand ends in the separator", "the prefix operand of a path-containment test is not separator-terminated ("+why+"): directory 'a' is taken to contain 'ab'")
-		if eng.Dominates(fw.excCall, call) {
+		ok, why := sepTerminated(c, pt.prefix, false, 0)
+		c.R.Check(ok, rule, pt.name+"/prefix-terminated", c.pos(pt.site), "the prefix operand ends in the separator", "the prefix operand of a path-containment test is not separator-terminated ("+why+"): directory 'a' is taken to contain 'ab'")
+		if eng.Dominates(fw.excCall, pt.site) {
 			// exclude block: the pattern side must be terminated too, else
 			// exception '!ab' would keep directory 'a' from being pruned only
 			// by accident and '!a' would not match dirSlash 'a/'
-			ok0, why0 := sepTerminated(c, a[0], false, 0)
-			c.R.Check(ok0, rule, c.siteName(call)+"/pattern-terminated", c.pos(call), "the pattern operand ends in the separator", "in the exclude block the pattern operand is not separator-terminated ("+why0+"): the exception for the directory itself is not recognised and it is pruned")
+			ok0, why0 := sepTerminated(c, pt.subject, false, 0)
+			c.R.Check(ok0, rule, pt.name+"/pattern-terminated", c.pos(pt.site), "the pattern operand ends in the separator", "in the exclude block the pattern operand is not separator-terminated ("+why0+"): the exception for the directory itself is not recognised and it is pruned")
 		}
 	}
 	c.R.Floor(rule, "prefix tests in filterFS.Walk", n, 3)
